@@ -172,6 +172,9 @@ class C15(Prop):
                 "vols": [float(v) for v in g.cell_volumes],
                 "inc": rows_of(sps.csr_matrix(g.cell_faces.T)),
                 "bnd": [bool(x) for x in isb],
+                # non-planar faces (moved nodes of a hexahedral grid): the first-moment identity
+                # sum_f s x_f n_f^T = |K| I is not expected of face centres / normals there
+                "planar": not (nd == 3 and case["grid"]["kind"] == "cart" and bool(case["grid"].get("pert"))),
                 "drows": rows_of(sps.hstack([dd, bdd])), "grows": rows_of(sg)}
 
     def run_impl(self, case):
@@ -232,10 +235,10 @@ class C15(Prop):
     def _inst(self, case, full):
         rows = lambda rs: clist(rs, crow)
         vl = lambda vs: clist(vs, lambda v: clist(v, cq))
-        return ("(mk_inst {} {} {} {} {} {} {} {} {} {} {} {})".format(
+        return ("(mk_inst {} {} {} {} {} {} {} {} {} {} {} {} {})".format(
             cn(full["nd"]), cn(full["nc"]), cn(full["nf"]), cq(case["alpha"]),
             vl(full["cc"]), vl(full["fc"]), vl(full["normals"]), clist(full["vols"], cq),
-            rows(full["inc"]), clist(full["bnd"], cbool), rows(full["drows"]), rows(full["grows"])))
+            rows(full["inc"]), clist(full["bnd"], cbool), cbool(full["planar"]), rows(full["drows"]), rows(full["grows"])))
 
     def coq_case(self, case, res):
         return f"check {TOL} {self._inst(case, self._full(case))}"
